@@ -48,7 +48,7 @@ ASSUMPTIONS = [
     "noise_cov_trial and signal_cov_channel are outside the property's quantifier and not generated",
 ]
 
-SIGNALS = [0.01, 0.25, 1.0, 2.0, 10.0]
+SIGNALS = [0.01, 0.25, 1.0, 2.0, 10.0, 1e-20]      # (1e-20: data in very small units; the relation is linear in the signal)
 NOISES = [0.01, 0.25, 1.0, 4.0, 100.0]
 
 
